@@ -8,6 +8,7 @@ ROOT=/tmp/rs; rm -rf $ROOT; mkdir -p $ROOT
 export GOWORK=off GOFLAGS=-mod=mod GOPROXY=off GOSUMDB=off GOTOOLCHAIN=local GOMAXPROCS=3
 ( cd /verif/checker && go build -o /verif/bin/ocivet ./cmd/ocivet ) || exit 2
 one() { n=$1; p=${n%%-*}
+  [ -f /verif/seeded/$n/detected_under ] && p=$(cat /verif/seeded/$n/detected_under)
   [ -f /verif/seeded/$n/patch.diff ] || return
   [ $n = C14-B ] && return   # became fix F15: the change is already in /repo
   mkdir -p /tmp/rs/$n && rsync -a --exclude .git --exclude 'cmd/ocisrv/ocisrv' /repo/ /tmp/rs/$n/ && ( cd /tmp/rs/$n && patch -s -p1 < /verif/seeded/$n/patch.diff ) || { echo "PATCH-FAILED $n"; return; }
